@@ -1138,8 +1138,8 @@ struct Interp {
   }
 
   // observable meaning of a register through const queries only
-  std::string snapshot(int ri) {
-    const AbsVal &v = *regs[ri].val;
+  std::string snapshot(int ri) { return snapshot_of(*regs[ri].val); }
+  std::string snapshot_of(const AbsVal &v) {
     std::string s = v.is_bottom() ? "B" : (v.is_top() ? "T" : "N");
     if (v.is_bottom())
       return s;
@@ -1607,6 +1607,39 @@ Outcome check_c16(const Case &c, Stats &st) {
           if (!in.apply(op))
             break;
           if (d != a) {
+            // The copy (made by copy assignment onto whatever d held before) must
+            // behave like its source from now on: the same probing operations are
+            // applied to copy-constructed clones of both and must give the same
+            // results (hidden state that assignment forgot to copy shows up here).
+            {
+              auto probe = [&](const std::function<void(AbsVal &)> &f, const char *what) {
+                AbsVal::P x = in.regs[a].val->clone(), y = in.regs[d].val->clone();
+                // no F5 fault inside a twin comparison (it would hit one side only)
+                bool f5 = hooks().unusual_enabled;
+                hooks().unusual_enabled = false;
+                f(*x);
+                f(*y);
+                hooks().unusual_enabled = f5;
+                std::string sx = in.snapshot_of(*x), sy = in.snapshot_of(*y);
+                if (sx != sy && !out.violated)
+                  in.violation("copy_differs_from_source", what,
+                               std::string("after ") + what + " the source gives " + sx +
+                                   " but its copy gives " + sy);
+              };
+              for (auto &bn : cx.bools) {
+                probe([&](AbsVal &v) { v.assume_bool(cx.v(bn), false); }, "assume_bool");
+                probe([&](AbsVal &v) { v.assume_bool(cx.v(bn), true); }, "assume_not_bool");
+              }
+              probe([&](AbsVal &v) { v.normalize(); }, "normalize");
+              probe([&](AbsVal &v) {
+                lin_cst_sys_t sys;
+                sys += lin_cst_t(lin_exp_t(cx.v("v0")) - lin_exp_t(cx.v("v1")), lin_cst_t::INEQUALITY);
+                v.add_constraints(sys);
+              }, "assume");
+              st.inc("copy_equivalence_probes");
+              if (out.violated)
+                break;
+            }
             std::string sa = in.snapshot(a);
             // mutate the copy d heavily; a must not move
             in.regs[d].val->forget(cx.v("v0"));
@@ -1653,6 +1686,7 @@ Outcome check_c16(const Case &c, Stats &st) {
       out.hash = in.h;
       // only C16's own monitors are reported here (witness losses are C03's)
       if (out.violated && out.v.monitor != "copy_not_isolated" &&
+          out.v.monitor != "copy_differs_from_source" &&
           out.v.monitor != "alias_mutation_changed_original" &&
           out.v.monitor.compare(0, 27, "witness_lost_after_benign_") != 0) {
         st.inc("other_property_violation_seen");
